@@ -383,7 +383,7 @@ def parts(tier):
     th = tier == "thorough"
     base = (("regp", A), ("regp", B))
     cadence = dict(
-        name="cadence", setup=base + (("regc", A), ("add", "camA")), max_subs=2, max_adds=3, depth=6 if th else 5,
+        name="cadence", setup=base + (("regc", A), ("add", "camA")), max_subs=2, max_adds=3, depth=7 if th else 5,
         alphabet=[("sub", A, "plain"), ("sub", A, "n0"), ("sub", A, "n1"), ("sub", A, "n2m2")] + ([("sub", A, "default")] if th else []) +
                  [("add", "camC"), ("adv", 0.5), ("adv", 1), ("adv", 2), ("attend",), ("unsub", A, 0)])
     isolation = dict(
